@@ -13,7 +13,7 @@ use vcore::{compile, Check, Labels, Outcome, Plan, Project, Stats, Step, Tape, T
 pub struct C09;
 pub const CHECK: C09 = C09;
 pub fn plan(t: Tier) -> Plan {
-    Plan::new(t.pick(4_000, 80_000), t.pick(3400, 4600))
+    Plan::new(t.pick(16_000, 200_000), t.pick(3400, 4600))
 }
 
 #[derive(Clone, Serialize, Deserialize)]
